@@ -77,7 +77,7 @@ def run(ctx):
             ctx.check(okE, "SIBLING", "C04:SIBLING:%s:Error" % kind, "Error ∧ duplicate → duplicate-key error", "policy Error (%s path): a duplicate key does not (always) produce the duplicate-key error" % kind, config, where)
             for bb, tt, ff in de:
                 # the non-duplicate edge must not error
-                ctx.check(not (set(dup_err) & f.reachable([ff], avoid=loop_heads + [x for x in dup_err if x not in f.reachable([ff], avoid=[tt])])) or True, "SIBLING", "C04:SIBLING:%s:Error:only-duplicates" % kind, "non-duplicates pass", "", config, where)
+                ctx.check(not (set(dup_err) & f.reachable([ff], avoid=loop_heads + [x for x in dup_err if x not in f.reachable([ff], avoid=[tt])])), "SIBLING", "C04:SIBLING:%s:Error:only-duplicates" % kind, "policy Error: a key that is not in the seen-set does not reach the duplicate-key error before the next entry", "policy Error (%s path): a key that is NOT a duplicate can reach the duplicate-key error" % kind, config, where)
             # location of the error is the key node's
             for eb, i, adt, var, fl, ops, s_ in aggregates(f):
                 if adt == "de_error::Error" and var == "DuplicateMappingKey" and f.dominates(arms["Error"], eb):
